@@ -23,27 +23,27 @@ package expr
 //	call  S = name; A = args; Expand
 //	tmpl  Parts; Form = q (quoted) | h (heredoc) | f (flush heredoc) | b (bare, for ParseTemplate)
 type E struct {
-	K      string  `json:"k"`
-	S      string  `json:"s,omitempty"`
-	A      []*E    `json:"a,omitempty"`
-	Items  []Item  `json:"items,omitempty"`
-	Full   bool    `json:"full,omitempty"`
-	Trail  []Step  `json:"trail,omitempty"`
-	KeyVar string  `json:"keyvar,omitempty"`
-	ValVar string  `json:"valvar,omitempty"`
-	Obj    bool    `json:"obj,omitempty"`
-	Group  bool    `json:"group,omitempty"`
-	Expand bool    `json:"expand,omitempty"`
-	Parts  []Part  `json:"parts,omitempty"`
-	Form   string  `json:"form,omitempty"`
-	Indent int     `json:"indent,omitempty"` // flush heredoc: spaces before each line and the closing marker
-	NLSep  bool    `json:"nlsep,omitempty"`  // obj: items separated by newlines instead of commas
-	TC     bool    `json:"tc,omitempty"`     // tuple/obj/call: trailing comma after the last element
+	K      string `json:"k"`
+	S      string `json:"s,omitempty"`
+	A      []*E   `json:"a,omitempty"`
+	Items  []Item `json:"items,omitempty"`
+	Full   bool   `json:"full,omitempty"`
+	Trail  []Step `json:"trail,omitempty"`
+	KeyVar string `json:"keyvar,omitempty"`
+	ValVar string `json:"valvar,omitempty"`
+	Obj    bool   `json:"obj,omitempty"`
+	Group  bool   `json:"group,omitempty"`
+	Expand bool   `json:"expand,omitempty"`
+	Parts  []Part `json:"parts,omitempty"`
+	Form   string `json:"form,omitempty"`
+	Indent int    `json:"indent,omitempty"` // flush heredoc: spaces before each line and the closing marker
+	NLSep  bool   `json:"nlsep,omitempty"`  // obj: items separated by newlines instead of commas
+	TC     bool   `json:"tc,omitempty"`     // tuple/obj/call: trailing comma after the last element
 }
 
 // Item is one element of an object constructor.
 type Item struct {
-	KK   string `json:"kk"`             // "id": bare identifier key Name; "expr": key expression Key
+	KK   string `json:"kk"` // "id": bare identifier key Name; "expr": key expression Key
 	Name string `json:"name,omitempty"`
 	Key  *E     `json:"key,omitempty"`
 	Val  *E     `json:"val"`
@@ -101,15 +101,15 @@ func ForO(kv, vv string, coll, key, val, cond *E, group bool) *E {
 	return &E{K: "for", Obj: true, KeyVar: kv, ValVar: vv, A: []*E{coll, val, key, cond}, Group: group}
 }
 func Tmpl(form string, parts ...Part) *E { return &E{K: "tmpl", Form: form, Parts: parts} }
-func Str(s string) *E                   { return Tmpl("q", Lit(s)) }
-func Lit(s string) Part                 { return Part{K: "lit", S: s} }
-func Interp(e *E) Part                  { return Part{K: "interp", E: e, Strip: [][2]bool{{false, false}}} }
-func InterpS(e *E, l, r bool) Part      { return Part{K: "interp", E: e, Strip: [][2]bool{{l, r}}} }
-func IdItem(n string, v *E) Item        { return Item{KK: "id", Name: n, Val: v} }
-func ExItem(k *E, v *E) Item            { return Item{KK: "expr", Key: k, Val: v} }
-func SAttr(n string) Step               { return Step{K: "attr", S: n} }
-func SIdx(k *E) Step                    { return Step{K: "idx", Key: k} }
-func SLIdx(n string) Step               { return Step{K: "lidx", S: n} }
+func Str(s string) *E                    { return Tmpl("q", Lit(s)) }
+func Lit(s string) Part                  { return Part{K: "lit", S: s} }
+func Interp(e *E) Part                   { return Part{K: "interp", E: e, Strip: [][2]bool{{false, false}}} }
+func InterpS(e *E, l, r bool) Part       { return Part{K: "interp", E: e, Strip: [][2]bool{{l, r}}} }
+func IdItem(n string, v *E) Item         { return Item{KK: "id", Name: n, Val: v} }
+func ExItem(k *E, v *E) Item             { return Item{KK: "expr", Key: k, Val: v} }
+func SAttr(n string) Step                { return Step{K: "attr", S: n} }
+func SIdx(k *E) Step                     { return Step{K: "idx", Key: k} }
+func SLIdx(n string) Step                { return Step{K: "lidx", S: n} }
 
 // Clone makes a deep copy.
 func (e *E) Clone() *E {
